@@ -32,7 +32,6 @@ func (m *CPU) Context() *risc.Context {
 }
 
 func (m *CPU) Run(app risc.Application) (int, error) {
-loop:
 	var pc int32
 	for pc/4 < int32(len(app.Instructions)) {
 		nextPc := m.fetchInstruction(pc)
@@ -60,11 +59,6 @@ loop:
 			m.ctx.WriteMemory(exe)
 			m.cycle += latency.MemoryAccess
 		}
-	}
-	if m.ctx.Registers[risc.Ra] != 0 {
-		pc = m.ctx.Registers[risc.Ra]
-		m.ctx.Registers[risc.Ra] = 0
-		goto loop
 	}
 
 	return m.cycle, nil
